@@ -320,7 +320,7 @@ def gen_c10(tier, rng):
         for single in (0, 1):
             for bc in (0, 1):
                 for ign in (0, 1):
-                    sample = uids if tier != "quick" else rng.sample(uids, 7) + [0, hosted[0]]
+                    sample = uids if tier != "quick" else rng.sample(uids, 6) + [0, 255, hosted[0]]
                     for uid in sample:
                         fe, kind = pairs[k % len(pairs)]
                         cfg = {"single": single, "hosted": hosted, "broadcast": bc if D.FRONTENDS[fe].supports_broadcast else 0, "ignore": ign}
@@ -334,6 +334,20 @@ def gen_c10(tier, rng):
                         case.schedule = schedule_for(case, fe, rng, "frames")
                         traces.append(run_case(case))
                         k += 1
+    # every front-end with unit 0 hosted (alone and beside unit 1), broadcast on: a write to unit 0 is a broadcast (all units, no
+    # answer), unit 255 is just another unit id
+    for fe, kind in pairs:
+        for hosted in ([0, 1], [0], [1, 255]):
+            for single in (0, 1):
+                for uid in (0, 255, 1):
+                    cfg = {"single": single, "hosted": hosted, "broadcast": 1 if D.FRONTENDS[fe].supports_broadcast else 0, "ignore": k % 2}
+                    case = Case("v%d" % k, "strict", fe, kind, cfg, make_units(cfg))
+                    reqs = [(uid, 11, dm.pdu_w1(6, 3, 1000 + uid)), (uid, 12, dm.pdu_read(3, 3, 1)), (uid, 13, dm.pdu_wn(15, 1, 3, 1, [5]))]
+                    reqs += [(h, 20 + i, dm.pdu_read(3, 3, 1)) for i, h in enumerate(hosted)]
+                    case.add_conn(build_frames(kind, reqs))
+                    case.schedule = schedule_for(case, fe, rng, "frames")
+                    traces.append(run_case(case))
+                    k += 1
     return traces
 
 
